@@ -392,25 +392,32 @@ class UDPL(VSchedCheck):
     rule = ("sequential histories on the real ListenConfig.Listen code over an in-memory socket (net.ListenUDP substituted in the copy of conn.go "
             "regenerated from the working tree): 15-75 operations: datagram from one of 7 remotes (sharing IPs and ports crosswise) with 1-5 byte "
             "payloads, Accept, Conn.Read (64/2/0 byte slices), Conn.Close, listener Close, then everything closed in a random order; backlog "
-            "1/2/3/128, accept filters none / first byte odd / reject all; remotes IPv4 / IPv6 (loopback, link-local differing only in zone) / mixed; "
+            "1/2/3/128, accept filters none / first byte odd / reject all / empty or first byte odd; remotes IPv4 / IPv6 (loopback, link-local differing only in zone) / mixed; "
             "batch reading off or on with ReadBatchSize 2/3/8 (arrivals then pile up and are returned several per ReadBatch call by the in-memory "
             "socket, NewBatchConn substituted in the same way as net.ListenUDP); every observation carries 'socket closed?'; non-trivial = at least 2 "
             "accepted connections and 3 delivered datagrams; concurrent tier (1/3 of the shards): 2-5 remotes, some connections queued and some accepted, "
             "then listener Close (also twice), 0-3 Accept calls, connection Close (twice) and parked Reads run as goroutines stepped one "
             "synchronisation operation at a time by a seeded schedule of 20-140 decisions with arrivals in between, then everything is closed; "
-            "distinct = distinct (config, operations)")
+            "loopback tier (1/4 of the shards, configuration <backlog> <filter> 3 <batch>): the same operations against a real socket on 127.0.0.1 "
+            "with one real socket per remote (also with the platform's batch reader), outside the bubble: after every arrival the harness waits "
+            "until the read loop has picked the datagram up (counted at getConn's lock in the instrumented copy) and the history continues with a "
+            "marker datagram from a sync remote and a blocking read of it on connection 0, after which the dispatch of the earlier datagram is "
+            "complete; empty datagrams (1/8 of the arrivals) and a filter that admits empty datagrams; every Read and Close first checks that "
+            "the connection's RemoteAddr is still the one it was accepted with; distinct = distinct (config, operations)")
     trusted = ["tools/vrewrite (here only the call substitution net.ListenUDP -> in-memory socket matters; yield hooks are off)",
+               "loopback tier: the kernel's UDP over 127.0.0.1 (no loss at these volumes); closure of the real socket is observed through SetWriteBuffer failing",
                "overlay file harness/overlay/udp/verif_export.go (queue length / buffered count accessors)", "testing/synctest (quiescence after each operation)"]
     assumptions = ["operations are issued one at a time (each completes before the next starts)"]
 
     def shrink(self, line, pred):
-        if split3(line)[0].split()[:1] == ["9"]:
-            return line
+        c = split3(line)[0].split()
+        if c[:1] == ["9"] or c[2:3] == ["3"]:
+            return line     # schedules, and loopback histories (whose marker operations must stay where they are), are not shrunk
         return SeqCheck.shrink(self, line, pred)
 
     def variants(self):
         base = ["-test.run", "^TestHarness$"]
-        return [(self.hbin, base), (self.hbin, base), (self.hbin, base + ["-mode", "conc"])]
+        return [(self.hbin, base), (self.hbin, base), (self.hbin, base + ["-mode", "conc"]), (self.hbin, base + ["-mode", "loop"])]
 
     def model_entry_for(self, conf):
         return "c12_replay" if conf.split()[:1] == ["9"] else self.model_entry
@@ -691,8 +698,9 @@ class C01(VSchedCheck):
         return sum(1 for x in o if x.startswith("1 ")) >= 3
 
     def shrink(self, line, pred):
-        if split3(line)[0].split()[:1] == ["9"]:
-            return line
+        c = split3(line)[0].split()
+        if c[:1] == ["9"] or c[2:3] == ["3"]:
+            return line     # schedules, and loopback histories (whose marker operations must stay where they are), are not shrunk
         return SeqCheck.shrink(self, line, pred)
 
     def failing_text(self):
